@@ -306,7 +306,9 @@ func (sc *serverConn) readLoop() (err error) {
 	var expectContinuation uint32
 
 	for err == nil {
-		fr, err = ReadFrameFromWithSize(sc.br, sc.clientS.frameSize)
+		// The limit on what we are willing to receive is the one we advertised,
+		// not the one the peer advertised for frames going the other way.
+		fr, err = ReadFrameFromWithSize(sc.br, sc.st.frameSize)
 		if err != nil {
 			if errors.Is(err, ErrUnknownFrameType) {
 				// Unknown frame types are discarded, not rejected (RFC 7540
